@@ -55,6 +55,11 @@ def gen_plain_einsum(rng, max_ranks=3, max_terms=2, max_factors=2, take_p=0.25, 
             terms.append(" * ".join(strs))
     nout = rng.randint(0, nr)
     out = rng.sample(ranks, nout)
+    spare = [r for r in RANK_POOL if r not in ranks]
+    if spare and rng.random() < out_only_p:
+        # an output-only (broadcast) rank: held by the output and by no input
+        out.insert(rng.randint(0, len(out)), rng.choice(spare))
+        shape["out_only"] += 1
     decl["Z"] = list(out)
     expr = "Z" + _idx(out) + " = " + " + ".join(terms)
     return {"decl": decl, "expr": expr, "out": "Z", "ranks": ranks, "shape": shape}
@@ -513,3 +518,23 @@ def add_spacetime(rng, mapping, out, loop, coord_p=0.35, slip_p=0.3):
 def default_loop(es):
     outr = es["decl"][es["out"]]
     return list(outr) + [r for r in es["ranks"] if r not in outr]
+
+
+def affine_occupancy_mapping(rng, es):
+    """Index-math Einsum with an OCCUPANCY partitioning of the filter rank S (leader F, 1-2 levels): the bottom level of
+    a dynamically partitioned rank is reached by projection.  Loop order: the S levels outermost-to-innermost with Q
+    inserted anywhere (and the 2-D ranks anywhere)."""
+    out = es["out"]
+    n = rng.choice([1, 1, 2])
+    size = rng.randint(2, 4)
+    ds = []
+    for i in range(n):
+        ds.append("uniform_occupancy(F.%d)" % size)
+        size = max(1, size // 2)
+    loop = levels_of("S", n)
+    loop.insert(rng.randint(0, len(loop)), "Q")
+    if "P" in es["ranks"]:
+        for o in (rng.choice(["P", "H"]), "R"):
+            loop.insert(rng.randint(0, len(loop)), o)
+    m = {"rank-order": {}, "loop-order": {out: loop}, "partitioning": {out: {"S": ds}}}
+    return m, "occ:%d" % n, {}
